@@ -55,6 +55,10 @@ def rev_case(rng):
 
 
 def fn_leg(acc, srv, rng, n):
+    from ..core import dropped_groups
+    if "fn_formulas" in dropped_groups():
+        acc.count("fn_leg_skipped_adapter_built_without_fn_formulas")
+        return
     cases = [rev_case(rng) for _ in range(n)]
     reqs = [("compute_offer_amount", [str(x), str(y), str(a), to_limbs(c)]) for x, y, a, c in cases]
     for (x, y, ask, c), rq, resp in zip(cases, reqs, srv.calls(reqs)):
